@@ -626,7 +626,7 @@ func c07Spec() propSpec {
 			replayVariants: []int{rvHonest, rvForeignSet, rvForeignPowers},
 			minOps:         3, maxOps: 30,
 			dh: []int{0, 0, 0, 1}, dr: []int{0, 0, 0, 1},
-			valChange: []int{1, 2, 2, 3},
+			valChange: []int{1, 2, 2, 3, 4},
 			inits:     []uint64{1, 1, 5},
 		},
 		oracle: c07Oracle,
@@ -899,7 +899,7 @@ func c06Spec() propSpec {
 			replayVariants: []int{rvHonest},
 			minOps:         4, maxOps: 40,
 			dh: []int{0}, dr: []int{0, 0, 0, 1, 1, 2},
-			valChange:   []int{0, 0, 3},
+			valChange:   []int{0, 0, 3, 4},
 			multiTarget: true,
 			fOnly:       true,
 		},
